@@ -15,6 +15,9 @@ lines of corpus/C05.ops.  `modert â€¦` lines (round-trip summaries `rt-ok len=â€
 laws alone) are still understood for replaying old evidence; no generator emits them any more: Threefish runs through
 `mode â€¦ THREEFISH <blockbytes> x<key>,x<tweak> â€¦` lines like every other cipher.
 
+Verbs dd / ee: three decryptions / three encryptions and a decryption on ONE object of any mode (the message, the message with its
+blocks reversed, the message again), judged call by call.
+
 Repeated blocks (`repeat-*` tags): raw ciphertexts in which one block occurs at several positions (IV|B|B, IV|A|B|A, IV|IV|â€¦, with
 nopadding and with paddings whose last block is well-formed by construction) and messages crafted with the cipher's own enc so
 that the ciphertext repeats a block (CBC: M2 = M1 ^ IV ^ E(M1 ^ IV)) or that repeat plaintext blocks - a per-block shortcut in a mode
@@ -234,12 +237,19 @@ def run_seq(line):
     return ';'.join(out)
 
 
+def rev_blocks(n, X, keep):
+    """X with its whole blocks in reverse order (keep: the first block - the IV - stays in front; a partial tail stays behind)"""
+    head = X[:n] if keep else b''
+    body = X[len(head):]
+    q = len(body) // n
+    return head + b''.join(reversed([body[i * n:(i + 1) * n] for i in range(q)])) + body[q * n:]
+
 def run_impl(line):
     if line.startswith('ctrseq '): return run_seq(line)
     op, mode, cid, n, key, iv, pad, verb, msg = parse(line)
     if op == 'mode':
         if cid not in TOYS and not token_ok(cid, n, key): raise RuntimeError('block length token does not match the cipher')
-        if verb not in ('enc', 'dec', 'rt', 'enc2', 'er', 'xd'): raise RuntimeError('verb ' + verb)
+        if verb not in ('enc', 'dec', 'rt', 'enc2', 'er', 'xd', 'dd', 'ee'): raise RuntimeError('verb ' + verb)
         mk = lambda: make_mode(mode, cipher_obj(cid, n, key), iv, pad)
         def go():
             if verb == 'enc': return hx(mk().enc(msg))
@@ -252,6 +262,25 @@ def run_impl(line):
             if verb == 'xd':                        # msg = an already 'padded' plaintext: encrypt it as it is, decrypt with the scheme
                 C = make_mode(mode, cipher_obj(cid, n, key), iv, 'nopadding').enc(msg)
                 return hx(mk().dec(C))
+        if verb in ('dd', 'ee'):
+            # ONE object of any mode used three (four) times: whatever it keeps from a call must not show in the next one.
+            #   dd: dec(C), dec(C with its blocks behind the IV reversed: same blocks, other neighbours), dec(C)
+            #   ee: C1 = enc(M), enc(M with its blocks reversed), enc(M), dec(C1)
+            box = []
+            if guarded(lambda: box.append(mk()) or 'ok') == 'ERR': return ';'.join(['ERR'] * (3 if verb == 'dd' else 4))
+            m, out, c1 = box[0], [], []
+            keep = mode in ('CBC', 'CTS_CBC')
+            if verb == 'dd':
+                for X in (msg, rev_blocks(n, msg, keep), msg): out.append(guarded(lambda: hx(m.dec(X))))
+            else:
+                for X in (msg, rev_blocks(n, msg, False), msg):
+                    def one():
+                        C = m.enc(X)
+                        if not c1: c1.append(C)
+                        return hx(C)
+                    out.append(guarded(one))
+                out.append(guarded(lambda: hx(m.dec(c1[0]))) if c1 else 'ERR')
+            return ';'.join(out)
         return guarded(go)
     if op == 'modert':
         def go():
@@ -410,6 +439,23 @@ def check_impl(line, res):
         if not in_domain(mode, n, bytes(n), iv, pad, msg): return None
         exp = 'rt-ok len=%d' % law_len(mode, n, pad, len(msg))
         return None if res == exp else bad('got %s, expected %s' % (res, exp))
+    if verb in ('dd', 'ee'):
+        # each call is judged as if it were the only one on a new object
+        if n < 1: return None
+        parts = res.split(';')
+        t = line.split()
+        keep = mode in ('CBC', 'CTS_CBC')
+        single = lambda v, X: ' '.join(t[:7] + [v, hx(X)])
+        if verb == 'dd': calls = [('dec', msg), ('dec', rev_blocks(n, msg, keep)), ('dec', msg)]
+        else: calls = [('enc', msg), ('enc', rev_blocks(n, msg, False)), ('enc', msg)]
+        if res == 'ERR': parts = ['ERR'] * (len(calls) + (verb == 'ee'))
+        if len(parts) != len(calls) + (verb == 'ee'): return bad('malformed result')
+        for i, (v, X) in enumerate(calls):
+            r = check_impl(single(v, X), parts[i])
+            if r: return 'call %d on one object: %s' % (i + 1, r)
+        if verb == 'ee' and in_domain(mode, n, key, iv, pad, msg, cid) and parts[3] != hx(msg):
+            return bad('call 4 on one object: dec(first ciphertext) = %s' % parts[3])
+        return None
     kat = KAT.get(line)
     if kat is not None and res != kat: return bad('differs from the ciphertext printed in SP 800-38A appendix F')
     if verb == 'dec' and mode in ('CTS_ECB', 'CTS_CBC'):
@@ -837,12 +883,14 @@ def repeat_cases(tier, rng, mk, cid, n, ks, ktag, thin=0, search=True, off=0, mo
                 # ---- (i) raw ciphertexts
                 if pad == 'nopadding':
                     yield mk(mode, cid, n, ks, iv, pad, 'dec', join(head + blocks)), 'repeat-dec/' + tag
+                    if not thin: yield mk(mode, cid, n, ks, iv, pad, 'dd', join(head + blocks)), 'one-object-dec/' + tag
                     if mode in ('CTS_ECB', 'CTS_CBC', 'CTR'):
                         yield mk(mode, cid, n, ks, iv, pad, 'dec', join(head + blocks) + rb(rng, rng.randrange(1, n))), 'repeat-dec/' + tag + '+partial'
                 else:
                     V = valid_last(pad, n, rng, rng.choice([1, 2, n]))
                     L = E(r_xor(V, blocks[-1])) if chained else E(V)
                     yield mk(mode, cid, n, ks, iv, pad, 'dec', join(head + blocks + [L])), 'repeat-dec/' + tag + '+padblock'
+                    if not thin: yield mk(mode, cid, n, ks, iv, pad, 'dd', join(head + blocks + [L])), 'one-object-dec/' + tag + '+padblock'
                     V = valid_last(pad, n, rng, rng.choice([1, 1, 3, n]))
                     lastc, prevc = pat[-1], (pat[-2] if len(pat) > 1 else 'I')
                     ok = True
@@ -873,6 +921,22 @@ def repeat_cases(tier, rng, mk, cid, n, ks, ktag, thin=0, search=True, off=0, mo
                     if Mc is not None:
                         yield mk(mode, cid, n, ks, iv, pad, 'er', join(Mc) + t), 'repeat-ciphertext/' + tag
                     yield mk(mode, cid, n, ks, iv, pad, 'er', join(blocks) + t), 'repeat-plaintext/' + tag
+                    if not thin or pat == 'AA': yield mk(mode, cid, n, ks, iv, pad, 'ee', join(Mc or blocks) + t), 'one-object-enc/' + tag
+
+def one_object_cases(tier, rng, sizes):
+    """ordinary (random, distinct) blocks: three or four calls on one object of every mode; ciphertexts made with the reference"""
+    for n in sizes:
+        for cid in ('rot', 'aff'):
+            key = rb(rng, n)
+            for mode in MODES:
+                for pad in admissible(mode):
+                    for L in (n, 2 * n, 3 * n, 3 * n + 2, 4 * n - 1):
+                        iv = rb(rng, n) if mode in ('CBC', 'CTS_CBC', 'CTR') else None
+                        msg = rb(rng, L)
+                        yield mline(mode, cid, n, key, iv, pad, 'ee', msg), 'one-object-enc/random/%s/%s' % (mode, pad)
+                        if in_domain(mode, n, key, iv, pad, msg):
+                            yield mline(mode, cid, n, key, iv, pad, 'dd', ref_encrypt(mode, cid, n, key, iv, pad, msg)), 'one-object-dec/random/%s/%s' % (mode, pad)
+                        yield mline(mode, cid, n, key, iv, pad, 'dd', rb(rng, L + (n if iv is not None and mode != 'CTR' else 0))), 'one-object-dec/raw/%s/%s' % (mode, pad)
 
 def repeat_toy_cases(tier, rng, sizes):
     for n in sizes:
@@ -888,7 +952,7 @@ def repeat_real_cases(tier, rng):
                  ('THREEFISH', 64, [rb(rng, 64), rb(rng, 16)], 'Threefish-512')]
     for i, (cid, n, ks, ktag) in enumerate(keys):
         slow = quick and cid == 'AES'            # the Lean AES model costs ~25 ms per line: the chained modes, fewer patterns
-        yield from repeat_cases(tier, rng, rline, cid, n, ks, ktag, thin=(5 if slow else 3) if quick else 0, search=cid == 'THREEFISH' or not quick,
+        yield from repeat_cases(tier, rng, rline, cid, n, ks, ktag, thin=((5 if slow else 3) if quick else (0 if i < 3 else 2)), search=cid == 'THREEFISH' or not quick,
                                 off=i, modes=('CBC', 'CTS_CBC') if slow else MODES)
 
 # ---------------------------------------------------------------------------------------------
@@ -1094,6 +1158,7 @@ def cases(tier, rng):
     yield from xd_toy_cases(tier, rng)
     yield from repeat_toy_cases(tier, rng, [8, 16, 32] if tier == 'quick' else sizes)
     yield from ctrseq_cases(tier, rng)
+    yield from one_object_cases(tier, rng, [8, 16] if tier == 'quick' else [8, 16, 32, 64, 128])
     yield from random_cases(tier, rng, 4000 if tier == 'quick' else 60000)
     real = (list(real_mode_cases(tier, rng)) + list(real_dec_cases(tier, rng)) + list(real_malformed_cases(tier, rng)) + list(real_cases(tier, rng))
             + list(threefish_cases(tier, rng)) + list(repeat_real_cases(tier, rng)) + list(ctrseq_real_cases(tier, rng)))
